@@ -4,6 +4,10 @@
 
   Coordinates are arbitrary 64-bit patterns (NaN payloads, ±0, ±Inf, subnormals: no special case).
   `WF32 g` : every slice length fits the 32-bit count field.  SRID 0 = absent.
+  `collDepth g ≤ wkb_MaxCollectionDepth` : geometry collections are nested no deeper than the decoders
+  accept (`wkbcommon.MaxCollectionDepth`, regenerated into `Generated.Params`; 10000).  The round trip is
+  NOT "to any depth": beyond the limit both decoders answer `ErrNestingTooDeep` (`encode_too_deep`), which
+  is what keeps hostile input from overflowing the goroutine stack (C05).
 -/
 import OrbProofs.C01Lemmas
 import OrbProofs.C01Scanner
@@ -15,27 +19,45 @@ theorem encode_nil (o : Order) (srid : Nat) (k : Kind) :
     encode o srid .nilIface = [] ∧ encode o srid (.nilSlice k) = [] := encode_nil' o srid k
 
 /-- One-shot byte decoder: decoding an encoding returns the canonical value and the SRID written. -/
-theorem unmarshal_encode (o : Order) (srid : Nat) (g : G) (hw : WF32 g) (hs : srid < 2^32) :
-    unmarshal (encGeom o srid g) = .ok (canon g, srid) := unmarshal_encode' o srid g hw hs
+theorem unmarshal_encode (o : Order) (srid : Nat) (g : G) (hw : WF32 g) (hs : srid < 2^32)
+    (hd : collDepth g ≤ Generated.Params.wkb_MaxCollectionDepth) :
+    unmarshal (encGeom o srid g) = .ok (canon g, srid) := unmarshal_encode' o srid g hw hs hd
 
-/-- Streaming decoder: it consumes exactly the encoding and leaves the rest of the stream. -/
+/-- Streaming decoder: it consumes exactly the encoding and leaves the rest of the stream; a decoder
+    that is itself `MaxCollectionDepth - left` collections deep accepts `left` more levels. -/
 theorem decodeStream_encode (o : Order) (srid : Nat) (g : G) (hw : WF32 g) (hs : srid < 2^32) (rest : Bytes)
-    (fuel : Nat) (hf : (encGeom o srid g).length ≤ fuel) :
-    decodeStream fuel (encGeom o srid g ++ rest) = .ok (canon g, srid, rest) :=
-  decodeStream_encode' o srid g hw hs rest fuel hf
+    (left : Nat) (hd : collDepth g ≤ left) :
+    decodeStream left (encGeom o srid g ++ rest) = .ok (canon g, srid, rest) :=
+  decodeStream_encode' o srid g hw hs rest left hd
 
-theorem decode_encode (o : Order) (srid : Nat) (g : G) (hw : WF32 g) (hs : srid < 2^32) :
-    decode (encGeom o srid g) = .ok (canon g, srid) := decode_encode' o srid g hw hs
+theorem decode_encode (o : Order) (srid : Nat) (g : G) (hw : WF32 g) (hs : srid < 2^32)
+    (hd : collDepth g ≤ Generated.Params.wkb_MaxCollectionDepth) :
+    decode (encGeom o srid g) = .ok (canon g, srid) := decode_encode' o srid g hw hs hd
+
+/-- The depth hypothesis is exactly what is needed: the encoding of a value whose collections are
+    nested deeper than `MaxCollectionDepth` is REJECTED by both decoders, with `ErrNestingTooDeep`
+    (the encoder itself has no limit). -/
+theorem encode_too_deep (o : Order) (srid : Nat) (g : G) (hw : WF32 g) (hs : srid < 2^32)
+    (hd : Generated.Params.wkb_MaxCollectionDepth < collDepth g) :
+    decode (encGeom o srid g) = .err .nestingTooDeep ∧ unmarshal (encGeom o srid g) = .err .nestingTooDeep :=
+  encode_too_deep' o srid g hw hs hd
+
+theorem decodeStream_too_deep (o : Order) (srid : Nat) (g : G) (hw : WF32 g) (hs : srid < 2^32) (rest : Bytes)
+    (left : Nat) (hd : left < collDepth g) :
+    decodeStream left (encGeom o srid g ++ rest) = .err .nestingTooDeep :=
+  decodeStream_too_deep' o srid g hw hs rest left hd
 
 /-- Scanning into each of the ten destinations yields the value under the documented coercions
     (`coerce` is the table, written out as data) and a wrong-geometry error for every other kind. -/
-theorem scan_table (bnd : BoundFn) (d : Dest) (o : Order) (srid : Nat) (g : G) (hw : WF32 g) (hs : srid < 2^32) :
+theorem scan_table (bnd : BoundFn) (d : Dest) (o : Order) (srid : Nat) (g : G) (hw : WF32 g) (hs : srid < 2^32)
+    (hd : collDepth g ≤ Generated.Params.wkb_MaxCollectionDepth) :
     scan bnd d (encGeom o srid g) =
       (match coerce bnd d (canon g) with
        | some v => .ok (v, srid)
-       | none => .err .incorrectGeometry) := scan_table' bnd d o srid g hw hs
+       | none => .err .incorrectGeometry) := scan_table' bnd d o srid g hw hs hd
 
-/-- The byte decoder, the stream decoder and the untyped scanner agree on every encoder output. -/
+/-- The byte decoder, the stream decoder and the untyped scanner agree on every encoder output
+    (at ANY nesting depth: beyond the limit they agree on the error). -/
 theorem paths_agree (bnd : BoundFn) (o : Order) (srid : Nat) (g : G) (hw : WF32 g) (hs : srid < 2^32) :
     unmarshal (encGeom o srid g) = decode (encGeom o srid g) ∧
     scan bnd .any (encGeom o srid g) = unmarshal (encGeom o srid g) := paths_agree' bnd o srid g hw hs
@@ -53,21 +75,22 @@ theorem framing_bslash_x (bnd : BoundFn) (d : Dest) (o : Order) (srid : Nat) (g 
 /-- `ewkb.ScannerPrefixSRID`: the 4-byte little-endian prefix is stripped; the SRID reported is the
     embedded one when non-zero, else the prefix. -/
 theorem framing_prefix_ewkb (bnd : BoundFn) (d : Dest) (o : Order) (srid p : Nat) (g : G) (hw : WF32 g)
-    (hs : srid < 2^32) (hp : p < 2^32) :
+    (hs : srid < 2^32) (hp : p < 2^32) (hd : collDepth g ≤ Generated.Params.wkb_MaxCollectionDepth) :
     ewkbScan bnd true d (u32 .little p ++ encGeom o srid g) =
       (match coerce bnd d (canon g) with
        | some v => .ok (v, if srid ≠ 0 then srid else p)
-       | none => .err .incorrectGeometry) := framing_prefix_ewkb' bnd d o srid p g hw hs hp
+       | none => .err .incorrectGeometry) := framing_prefix_ewkb' bnd d o srid p g hw hs hp hd
 
 /-- The deprecated `wkb.Scanner` retry (strip a 4-byte prefix when the header is not WKB) works
     whenever the first prefix byte cannot be mistaken for a byte-order mark or a hex framing:
     PARTIAL — the full statement (every prefix) is false of the code, see the witness below. -/
 theorem framing_prefix_wkb_partial (bnd : BoundFn) (d : Dest) (o : Order) (p : Nat) (g : G) (hw : WF32 g)
-    (hp : p < 2^32) (h0 : p % 256 ≠ 0) (h1 : p % 256 ≠ 1) (h2 : p % 256 ≠ 48) (h3 : p % 256 ≠ 92) :
+    (hp : p < 2^32) (h0 : p % 256 ≠ 0) (h1 : p % 256 ≠ 1) (h2 : p % 256 ≠ 48) (h3 : p % 256 ≠ 92)
+    (hd : collDepth g ≤ Generated.Params.wkb_MaxCollectionDepth) :
     wkbScan bnd d (u32 .little p ++ encGeom o 0 g) =
       (match coerce bnd d (canon g) with
        | some v => .ok v
-       | none => .err .incorrectGeometry) := framing_prefix_wkb_partial' bnd d o p g hw hp h0 h1 h2 h3
+       | none => .err .incorrectGeometry) := framing_prefix_wkb_partial' bnd d o p g hw hp h0 h1 h2 h3 hd
 
 /-- Witness that the full statement fails: SRID 256 (prefix bytes 00 01 00 00) in front of a point
     is accepted as a big-endian header and a wrong point is returned with no error. -/
@@ -75,7 +98,15 @@ theorem wkbScan_prefix_witness (bnd : BoundFn) :
     ∃ v, wkbScan bnd .any (u32 .little 256 ++ encGeom .little 0 (.point ⟨0x3ff0000000000000, 0x4000000000000000⟩)) = .ok v ∧
       v ≠ .point ⟨0x3ff0000000000000, 0x4000000000000000⟩ := wkbScan_prefix_witness' bnd
 
-/-- A decoded value re-encodes and decodes to itself (stability, used by C05). -/
+/-- Whatever a decoder returns is nested no deeper than the limit (so it re-encodes to something the
+    decoders accept) … -/
+theorem decode_depth_ok (bs : Bytes) (g : G) (srid : Nat) (h : decode bs = .ok (g, srid)) :
+    collDepth g ≤ Generated.Params.wkb_MaxCollectionDepth := decode_ok_depth h
+
+theorem unmarshal_depth_ok (bs : Bytes) (g : G) (srid : Nat) (h : unmarshal bs = .ok (g, srid)) :
+    collDepth g ≤ Generated.Params.wkb_MaxCollectionDepth := unmarshal_ok_depth h
+
+/-- … so a decoded value re-encodes and decodes to itself (stability, used by C05). -/
 theorem reencode_stable (bs : Bytes) (g : G) (srid : Nat) (h : unmarshal bs = .ok (g, srid)) (o : Order) :
     unmarshal (encGeom o srid g) = .ok (g, srid) := reencode_stable' bs g srid h o
 
@@ -87,11 +118,11 @@ theorem ewkb_scanner_history_free (bnd : BoundFn) (p : Bool) (d : Dest) (σ σ' 
 
 /-- A row written by the encoder reads, on a reused `ewkb.Scanner`, exactly as the coercion table says. -/
 theorem ewkb_scanner_reused_row (bnd : BoundFn) (d : Dest) (σ : ScanState) (o : Order) (srid : Nat) (g : G)
-    (hw : WF32 g) (hs : srid < 2^32) :
+    (hw : WF32 g) (hs : srid < 2^32) (hd : collDepth g ≤ Generated.Params.wkb_MaxCollectionDepth) :
     (ewkbScanStep bnd false d σ (.bytes (encGeom o srid g))).map ScanState.observe =
       (match coerce bnd d (canon g) with
        | some v => .ok (none, true, some v, srid)
-       | none => .ok (some .incorrectGeometry, false, none, 0)) := ewkbScanStep_encode' bnd d σ o srid g hw hs
+       | none => .ok (some .incorrectGeometry, false, none, 0)) := ewkbScanStep_encode' bnd d σ o srid g hw hs hd
 
 /-- The deprecated `wkb.GeometryScanner` is history free as well. -/
 theorem wkb_scanner_history_free (bnd : BoundFn) (d : Dest) (σ σ' : ScanState) (x : ScanIn) :
@@ -101,8 +132,16 @@ theorem wkb_scanner_history_free (bnd : BoundFn) (d : Dest) (σ σ' : ScanState)
 /-- Non-vacuity: a concrete nested value meets the hypotheses, and its encoding is what Go writes
     (`01 07000020 E6100000 01000000 | 01 01000000 <x> <y>` for SRID 4326). -/
 example : WF32 (.collection [.point ⟨1, 2⟩, .ring []]) ∧
+    collDepth (.collection [.point ⟨1, 2⟩, .collection [.ring []]]) = 2 ∧
+    collDepth (.collection [.point ⟨1, 2⟩, .collection [.ring []]]) ≤ Generated.Params.wkb_MaxCollectionDepth ∧
     (encGeom .little 4326 (.collection [.point ⟨1, 2⟩])).take 13 = [1, 7, 0, 0, 32, 0xE6, 0x10, 0, 0, 1, 0, 0, 0] := by
-  refine ⟨?_, by decide⟩
+  refine ⟨?_, by decide, by decide, by decide⟩
   simp [WF32]
+
+/-- Non-vacuity of `encode_too_deep` (instantiated at one level left, where it can be computed):
+    a collection in a collection is rejected by a decoder that has one level left. -/
+example : decodeStream 1 (encGeom .little 0 (.collection [.collection []])) = .err .nestingTooDeep ∧
+    decodeStream 2 (encGeom .little 0 (.collection [.collection []])) = .ok (.collection [.collection []], 0, []) :=
+  ⟨rfl, rfl⟩
 
 end Orb.WKB
